@@ -45,6 +45,20 @@ Theorem C17_returned_then_unchanged_skipped : forall pre cfg now world cfg' now'
 Proof. exact returned_then_unchanged_skipped. Qed.
 Print Assumptions C17_returned_then_unchanged_skipped.
 
+(* the periodic cache clean-up (once per cache-age interval, at the head of a scan)
+   changes nothing about what that scan returns: an unchanged file that is still
+   there is not sent again because time passed ... *)
+Theorem C17_cache_cleanup_invisible_to_scan : forall clean cfg now world c,
+  fst (scan_once_c clean cfg now world c) = fst (scan_once cfg now world c).
+Proof. exact clean_invisible_to_scan. Qed.
+Print Assumptions C17_cache_cleanup_invisible_to_scan.
+
+(* ... and all it forgets are names whose file is gone *)
+Theorem C17_cache_cleanup_forgets_exactly_the_absent : forall world c n,
+  sc_get (sc_clean world c) n = if sc_present world n then sc_get c n else None.
+Proof. exact clean_forgets_exactly_the_absent. Qed.
+Print Assumptions C17_cache_cleanup_forgets_exactly_the_absent.
+
 (* ---- the queue cache (cache/local.go) is where "the version returned last" lives ---- *)
 From STS Require Import Model.Cache Proofs.CacheP.
 
